@@ -29,6 +29,14 @@
 #define SC_DECL__ , yyscan_t yyscanner
 #endif
 
+#if defined(SIM_READ_SYSCALL) && SIM_READ_SYSCALL
+/* -Cr: yyread() is `read(fileno(yyin), buf, n)`.  The scanner was generated with
+ * %option nounistd, so both names are ours to define; the descriptor of a simulated
+ * source is 1000 + its number */
+#define read(fd, b, n) sim_sys_read((fd), (b), (n))
+#define fileno(f) sim_fileno(f)
+#endif
+
 #if SIM_FLAVOR == SIM_NR || SIM_FLAVOR == SIM_R
 #if SIM_USER_INPUT
 #define YY_INPUT(buf, result, max_size) \
